@@ -965,6 +965,9 @@ func main() {
 	t0 = time.Now()
 	candidateFamily()
 	phase["candidate-family"] = time.Since(t0).Seconds()
+	t0 = time.Now()
+	linearErrors()
+	phase["linear-errors"] = time.Since(t0).Seconds()
 
 	t0 = time.Now()
 	var st stats
@@ -1160,4 +1163,151 @@ func candidateFamily() {
 			run.Distinct(fmt.Sprintf("fam/%d/%s", pos, c.Name))
 		})
 	}
+}
+
+
+// linearErrors: EVERY error vector with small integer coefficients on one base point: entry i carries
+// s_i + a_i*D for every a in {-A..A}^n other than 0 (n = 2..nLin; D an independent G1 point and,
+// separately, D = H(m), i.e. the signature of the key sk_i + a_i). A verifier whose per-entry
+// coefficients satisfy ANY fixed small-integer linear relation (equal coefficients, an arithmetic
+// progression, multiples of the index, a low-degree polynomial in the index ...) accepts the vectors in
+// the kernel of that relation although every touched entry fails on its own; index i is true iff a_i = 0.
+// Real crypto/rand only: the chosen seed tapes of phase 2 are themselves an arithmetic progression.
+func linearErrors() {
+	nLin, A := 5, 2
+	if run.Thorough() {
+		nLin = 6
+	}
+	base := mod(new(big.Int).Add(extraSK, big.NewInt(90909)))
+	bases := []struct {
+		name string
+		pt   refbls.G1
+	}{{"D", d1}, {"H(m)", hPoint}}
+	type job struct {
+		n, b int
+		a    []int
+	}
+	var jobs []job
+	for n := 2; n <= nLin; n++ {
+		tot := 1
+		for i := 0; i < n; i++ {
+			tot *= 2*A + 1
+		}
+		for v := 0; v < tot; v++ {
+			a := make([]int, n)
+			x, nz := v, false
+			for i := 0; i < n; i++ {
+				a[i] = x%(2*A+1) - A
+				x /= 2*A + 1
+				nz = nz || a[i] != 0
+			}
+			if !nz {
+				continue
+			}
+			for b := range bases {
+				if b > 0 && n == nLin && !run.Thorough() {
+					continue // quick: the largest n with the independent base only
+				}
+				jobs = append(jobs, job{n, b, a})
+			}
+		}
+	}
+	// thorough: coefficients up to 3 at n = 4
+	if run.Thorough() {
+		for v := 0; v < 7*7*7*7; v++ {
+			a := make([]int, 4)
+			x, big3 := v, false
+			for i := 0; i < 4; i++ {
+				a[i] = x%7 - 3
+				x /= 7
+				big3 = big3 || a[i] == 3 || a[i] == -3
+			}
+			if big3 {
+				jobs = append(jobs, job{4, 0, a})
+			}
+		}
+	}
+	run.Set("linear_error_vectors", map[string]any{"n_max": nLin, "coefficient_bound": A, "bases": []string{"independent G1 point D", "H(m)"}, "cases": len(jobs)})
+	ks := make([]*big.Int, nLin)
+	pks := make([]crypto.PublicKey, nLin)
+	pts := make([]refbls.G1, nLin)
+	for i := range ks {
+		ks[i] = mod(new(big.Int).Add(base, big.NewInt(int64(1013*i+5))))
+		pks[i] = libPK(ks[i])
+		pts[i] = hPoint.Mul(ks[i])
+	}
+	// multiples -3..3 of each base
+	mult := make([]map[int]refbls.G1, len(bases))
+	for b := range bases {
+		mult[b] = map[int]refbls.G1{}
+		for c := -3; c <= 3; c++ {
+			if c != 0 {
+				mult[b][c] = bases[b].pt.Mul(mod(big.NewInt(int64(c))))
+			}
+		}
+	}
+	var encMu sync.Mutex
+	encMemo := map[[3]int][]byte{}
+	sigOf := func(i, b, c int) []byte {
+		encMu.Lock()
+		defer encMu.Unlock()
+		k := [3]int{i, b, c}
+		if e, ok := encMemo[k]; ok {
+			return e
+		}
+		e := enc(pts[i])
+		if c != 0 {
+			e = enc(pts[i].Add(mult[b][c]))
+		}
+		encMemo[k] = e
+		return e
+	}
+	ev.Par(len(jobs), func(ji int) {
+		j := jobs[ji]
+		var st stats
+		defer st.flush()
+		sigs := make([]crypto.Signature, j.n)
+		want := make([]bool, j.n)
+		for i := 0; i < j.n; i++ {
+			sigs[i] = sigOf(i, j.b, j.a[i])
+			want[i] = j.a[i] == 0
+		}
+		got, err := crypto.BatchVerifyBLSSignaturesOneMessage(pks[:j.n], sigs, msg, newHasher())
+		st.add("evaluations", 1)
+		nT := 0
+		ok := err == nil && len(got) == j.n
+		if ok {
+			for i := range got {
+				if got[i] {
+					nT++
+				}
+				ok = ok && got[i] == want[i]
+			}
+		}
+		st.add(fmt.Sprintf("outcome/linear/n=%d/true=%d", j.n, nT), 1)
+		if !ok {
+			rp := replay{N: j.n, Kind: fmt.Sprintf("linear-errors:%v*%s", j.a, bases[j.b].name), Msg: ev.Hex(msg), Tag: tag, Reader: "real", Expect: want, Got: fmt.Sprintf("%v,%v", got, err)}
+			for i := 0; i < j.n; i++ {
+				if j.a[i] != 0 {
+					rp.Subset = append(rp.Subset, i)
+				}
+				rp.SKs = append(rp.SKs, ev.Hex(ks[i].Bytes()))
+				rp.KeyRepr = append(rp.KeyRepr, "derived")
+				rp.Sigs = append(rp.Sigs, ev.Hex(sigs[i]))
+			}
+			dir := "true-for-invalid"
+			if err != nil || len(got) != j.n {
+				dir = "error-or-length"
+			} else {
+				for i := range got {
+					if want[i] && !got[i] {
+						dir = "false-for-valid"
+					}
+				}
+			}
+			run.Violation("batch:linear-errors:"+dir+":"+bases[j.b].name,
+				fmt.Sprintf("BatchVerifyBLSSignaturesOneMessage on %d entries s_i + a_i*%s with a = %v: got (%v,%v), want %v (index i is valid iff a_i = 0)", j.n, bases[j.b].name, j.a, got, err, want), rp)
+		}
+		run.Distinct(fmt.Sprintf("linear/%d/%d/%v", j.n, j.b, j.a))
+	})
 }
